@@ -92,7 +92,7 @@ pub fn check_input(ctx: &mut Ctx, src: &str, stage: &str) {
                         );
                     }
                     let prefix = format!("Parse error (line {}): ", e.line);
-                    if !e.text.starts_with(&prefix) || e.text.len() <= prefix.len() {
+                    if e.line == 0 || !e.text.starts_with(&prefix) || e.text.len() <= prefix.len() {
                         ctx.violation(
                             "parse:error_rendering",
                             &format!("rendered message {:?} does not name its line / is empty", e.text),
